@@ -162,9 +162,9 @@ def install_stream(w, case):
 class C04(UdpCheck):
     pid = "C04"
     budget = {"quick": 80, "thorough": 900}
-    ncases = {"quick": 380, "thorough": 24000}
+    ncases = {"quick": 300, "thorough": 24000}
     per_run_wall_s = 400
-    chunk = 2
+    chunk = 1
     rule = ("case = traffic (all retry modes, bulk small messages that move the 256-message window, both directions) under "
             "duplication with delays from 0 to seconds, reordering, ack-path loss so that every retry mode retransmits, "
             "one-way partitions, and attacker replays of recorded datagrams after k newer ones for k around 32, 256 and up to "
@@ -174,7 +174,7 @@ class C04(UdpCheck):
             "event-order digest")
 
     def gen(self, rng, tier, i):
-        wrap = (i < 4) if tier == "quick" else (i % 500 < 2)
+        wrap = (i < 2) if tier == "quick" else (i % 500 < 2)
         return gen_dups(rng, i, tier, wrap=wrap)
 
     def monitors(self, case):
